@@ -271,3 +271,14 @@ def waiting_future_key(prog) -> str:
             key = cands[0]
     prog._waiting_future_key = key  # type: ignore[attr-defined]
     return key
+
+
+def method_in_chain(prog, c, name: str, stop=('workchains.Stepper', 'persistence.Savable', 'processes.Process', 'base.state_machine.State')):
+    """The analysis view of ``name`` as defined by ``c`` or by a base of ``c`` that is more specific than the framework classes in ``stop``
+    (an identical method hoisted from sibling classes into a private common base is still "the class's" method)."""
+    for k in c.mro_classes():
+        if k.qualname in stop and k is not c:
+            return None
+        if name in k.methods:
+            return prog.view(k.methods[name])
+    return None
